@@ -1,5 +1,6 @@
 import Deb822Verif.Props.C16Lossless
 import Deb822Verif.Props.C20Ext
+import Deb822Verif.Model.DeriveTree
 /-!
 # C16More — what the audit of C16 (logs/audit_C16.md) found missing
 
@@ -1619,6 +1620,36 @@ example : TermLast (foreignNodes (specKeys exSpec3) oddCs) (foreignNodes (specKe
 example : (∀ k ∈ presentKeys exSpec3 [some (c!"m"), some (c!"3")], ∃ c ∈ oddCs, isEntryWithKey k c = true)
     ∧ textList (updateParagraph losslessKidsBackend exSpec3 [some (c!"m"), some (c!"3")] oddCs)
       = "X:1\n# mid\nSize: 3\n# between\nSize: 9\nY:\t 2\n\t cont\n   more\nName: m\n# trail".toList := by
+  decide +kernel
+
+/-! ## Part 6 — what the driver executes; the macro's front end in the table -/
+
+/-- the back-end the driver runs for `lossless` requests (`Model/DeriveTree.lean`) is the back-end of
+    the lossless theorems -/
+theorem C16_driver_backend : Derive.treeBackend = losslessBackend := rfl
+
+/-- **the front end of the macro, as translated** (synthetic struct `SynFront` of harness/src/derive.rs,
+    compiled by the real macro and driven on every run): a raw identifier keeps its `r#` prefix in the
+    default key (`Ident::to_string`; audit D1 — the field `r#type` is read from and written to the key
+    `r#type`, not `type`); `std::option::Option<T>` and `::std::option::Option<T>` are optional fields
+    (`is_option`: last path segment); of several `#[deb822(…)]` attributes on one field a later `field`
+    overrides an earlier one while `serialize_with` / `deserialize_with` from different attributes are
+    merged; of two `field` items inside one attribute the second wins -/
+theorem C16_front_end_row :
+    (rowNamed (c!"derive.SynFront")).map (·.fields)
+      = some [⟨c!"r#type", c!"r#type", false, c!"", c!"", c!"String"⟩,
+              ⟨c!"r#match", c!"r#match", true, c!"", c!"", c!"String"⟩,
+              ⟨c!"path_opt", c!"path_opt", true, c!"", c!"", c!"u32"⟩,
+              ⟨c!"abs_opt", c!"abs_opt", true, c!"", c!"", c!"String"⟩,
+              ⟨c!"merged", c!"Second", false, c!"derive.syn_ser_yesno", c!"derive.syn_de_yesno", c!"bool"⟩,
+              ⟨c!"twice", c!"Twice-B", true, c!"", c!"", c!"String"⟩] := by
+  decide +kernel
+
+/-- the consequence for a paragraph that spells the field `type`: `missing field: r#type` -/
+example : ((rowNamed (c!"derive.SynFront")).bind specOfRow).map (fun spec =>
+      (fromFields (lookupFirst [(c!"type", c!"t"), (c!"Second", c!"yes")]) spec,
+       (fromFields (lookupFirst [(c!"r#type", c!"t"), (c!"Second", c!"yes")]) spec).toBool))
+    = some (.error (c!"missing field: r#type"), true) := by
   decide +kernel
 
 end Deb822Verif.Props.C16More
